@@ -1,3 +1,4 @@
+import builtins
 import enum
 import importlib
 import inspect
@@ -39,8 +40,10 @@ from mashumaro.core.meta.helpers import (
     get_literal_values,
     get_name_error_name,
     get_type_annotations,
+    get_type_origin,
     hash_type_args,
     is_annotated,
+    is_builtin_type,
     is_class_var,
     is_dataclass_dict_mixin,
     is_dataclass_dict_mixin_subclass,
@@ -282,6 +285,14 @@ class CodeBuilder:
             if not module:
                 continue
             self.ensure_module_imported(module)
+            origin = get_type_origin(t)
+            if (
+                isinstance(origin, type)
+                and is_builtin_type(origin)
+                and not hasattr(builtins, origin.__qualname__)
+            ):
+                # e.g. types.MappingProxyType is rendered as "mappingproxy"
+                self.ensure_object_imported(origin)
             if is_literal(t):
                 literal_args = get_literal_values(t)
                 self.add_type_modules(*literal_args)
